@@ -13,8 +13,9 @@ from ref import roman as R
 MANIFEST = {
     'engine': 'E1',
     'technique': 'complete-domain enumeration of conversion functions on the real code vs an independent reference calendar / radix / roman model, plus inverse laws on the implementation itself',
-    'text': 'All 2,958,466 date serials (YEAR/MONTH/DAY, DATE of the parts and of two unnormalised spellings, WEEKDAY in all 10 return types with the '
-            'one-step law), all 86,400 seconds (HOUR/MINUTE/SECOND of TIME), all 1024 binary values and all binary strings of 1..10 digits, the '
+    'text': 'All 2,958,466 date serials (YEAR/MONTH/DAY, DATE of the parts and of two unnormalised spellings, WEEKDAY with return_type omitted and in the 10 '
+            'return types with the one-step law; quick: every serial with return_type omitted plus one rotating return_type per 8192-serial chunk, '
+            'all ten on the first and last chunk; thorough: all ten everywhere), all 86,400 seconds (HOUR/MINUTE/SECOND of TIME), all 1024 binary values and all binary strings of 1..10 digits, the '
             'structured octal/hexadecimal sub-domain (within 4096 of 0, of both bounds and of every power of the base; single-digit-varied patterns; '
             'thorough: every pattern with <= 4 non-zero digits), all 6 cross conversions against composition through DEC, the places argument, '
             'out-of-domain arguments, and ROMAN for all 4000 numbers x 5 forms with ARABIC as inverse are executed by the registered functions '
